@@ -355,7 +355,11 @@ impl Segments {
                     self.segments.push_back(s);
                     PopExpiredProbe::Empty
                 }
-                (true, true) if s.retransmit_count() >= max_probe_retransmissions => {
+                // A probe that was never transmitted (e.g. held back by the congestion window)
+                // tells nothing about the path.
+                (true, true)
+                    if s.send_count() > 0 && s.retransmit_count() >= max_probe_retransmissions =>
+                {
                     // The probe's bytes go back to being unsegmented.
                     self.offset -= s.payload_size as u64;
                     self.len_bytes -= s.payload_size;
